@@ -23,6 +23,10 @@ type mItem struct {
 	When       M      // rule.when.pattern (nil for scheduled rules)
 	Schedule   string // rule.schedule
 	DeleteWith []string
+	// AltStored: another acceptable value of get.  A property written as a
+	// fact depends on its target; whether that shows in the stored form
+	// (as a deleteWith entry) is the implementation's business.
+	AltStored M
 	// Expiry instant in UNIX seconds; 0 = never.  [ExpLo, ExpHi] is the
 	// band allowed for ttl-derived instants.
 	ExpLo, ExpHi int64
